@@ -885,10 +885,15 @@ Proof.
     - destruct Hq as (Hq & _). discriminate Hq. }
   pose proof (C10_rt_sequence true ATCMD rs rn w ci c HL Hc Hat (conj Hhr Hnv) Hfit Hnz
                 Hret' Hnt Ht (fun E => ltac:(discriminate E))) as H.
-  cbv zeta in H. rewrite !C10_rt_run_c in H.
+  assert (Eq : forall s, rtq true ATCMD ci s = rq ci s) by reflexivity.
+  assert (Efd : forall s, flush_done ATCMD (start_flush_after ATCMD CS_AFTER_OK US_AFTER_OK s) =
+                          setk_state CS_AFTER_OK (start_flush_c CS_AFTER_OK s)) by reflexivity.
+  cbv zeta in H. rewrite !C10_rt_run_c, !Eq in H.
   destruct H as (I0 & I2 & I3 & _ & I4 & I5). cbv zeta.
   split; [rewrite <- C10_rt_run_c; exact (proj1 (I0 (length rs) (le_n _)))|].
-  split; [exact I2|]. split; [exact I3|]. split; [exact I4|exact I5].
+  split; [exact I2|].
+  split; [rewrite I3, Efd; destruct (spec_action K_READ ATCMD (r_code rn)); reflexivity|].
+  split; [exact I4|exact I5].
 Qed.
 
 (* --- 1. TEST handler, command machine --- *)
@@ -928,9 +933,17 @@ Proof.
   intros rs rn w ci c HL Hc Hat Hht Hv Hd Hfit Hnz Hret Hnt Ht.
   pose proof (C10_rt_sequence false ATCMD rs rn w ci c HL Hc Hat (conj Hht (conj Hv Hd)) Hfit Hnz
                 Hret Hnt Ht (fun E => ltac:(discriminate E))) as H.
-  cbv zeta in H. destruct H as (I0 & I2 & I3 & _ & I4 & I5). cbv zeta.
+  assert (Eq : forall s, rtq false ATCMD ci s =
+            HTest ATCMD ci (firstn (S (k_position (k s))) (cbuf s)) (k_position (k s)) (asz s))
+    by reflexivity.
+  assert (Efd : forall s, flush_done ATCMD (start_flush_after ATCMD CS_AFTER_OK US_AFTER_OK s) =
+                          setk_state CS_AFTER_OK (start_flush_c CS_AFTER_OK s)) by reflexivity.
+  cbv zeta in H. rewrite !Eq in H.
+  destruct H as (I0 & I2 & I3 & _ & I4 & I5). cbv zeta.
   split; [intros m Hm; exact (proj1 (I0 m Hm))|].
-  split; [exact I2|]. split; [exact I3|]. split; [exact I4|exact I5].
+  split; [exact I2|].
+  split; [rewrite I3, Efd; destruct (spec_action K_TEST ATCMD (r_code rn)); reflexivity|].
+  split; [exact I4|exact I5].
 Qed.
 
 (* --- 2. READ handler, event machine: no result code, the command machine is not involved --- *)
@@ -970,9 +983,15 @@ Proof.
   intros rs rn w ci c HL Hc Hat Hhr Hnv Hfit Hnz Hret Hnt Ht Hnh.
   pose proof (C10_rt_sequence true UNSOL rs rn w ci c HL Hc Hat (conj Hhr Hnv) Hfit Hnz
                 Hret Hnt Ht (fun _ => Hnh)) as H.
-  cbv zeta in H. destruct H as (I0 & I2 & I3 & Ix & I4 & I5). cbv zeta.
+  assert (Eq : forall s, rtq true UNSOL ci s =
+            HRead UNSOL ci (firstn (S (u_position (u s))) (ubuf s)) (u_position (u s)) (usz s))
+    by reflexivity.
+  assert (Efd : forall s, flush_done UNSOL (start_flush_after UNSOL CS_AFTER_OK US_AFTER_OK s) =
+                          setu_state US_AFTER_OK (start_flush_u US_AFTER_OK s)) by reflexivity.
+  cbv zeta in H. rewrite !Eq in H.
+  destruct H as (I0 & I2 & I3 & Ix & I4 & I5). cbv zeta.
   split; [exact I0|]. split; [exact I2|]. split; [|split; [exact Ix|split; [exact I4|exact I5]]].
-  rewrite I3.
+  rewrite I3, Efd.
   destruct (spec_action K_READ UNSOL (r_code rn)) eqn:E; try reflexivity.
   exfalso. apply Hnh. exact (spec_rt_hold true UNSOL _ E).
 Qed.
@@ -1014,9 +1033,15 @@ Proof.
   intros rs rn w ci c HL Hc Hat Hht Hv Hd Hfit Hnz Hret Hnt Ht Hnh.
   pose proof (C10_rt_sequence false UNSOL rs rn w ci c HL Hc Hat (conj Hht (conj Hv Hd)) Hfit Hnz
                 Hret Hnt Ht (fun _ => Hnh)) as H.
-  cbv zeta in H. destruct H as (I0 & I2 & I3 & Ix & I4 & I5). cbv zeta.
+  assert (Eq : forall s, rtq false UNSOL ci s =
+            HTest UNSOL ci (firstn (S (u_position (u s))) (ubuf s)) (u_position (u s)) (usz s))
+    by reflexivity.
+  assert (Efd : forall s, flush_done UNSOL (start_flush_after UNSOL CS_AFTER_OK US_AFTER_OK s) =
+                          setu_state US_AFTER_OK (start_flush_u US_AFTER_OK s)) by reflexivity.
+  cbv zeta in H. rewrite !Eq in H.
+  destruct H as (I0 & I2 & I3 & Ix & I4 & I5). cbv zeta.
   split; [exact I0|]. split; [exact I2|]. split; [|split; [exact Ix|split; [exact I4|exact I5]]].
-  rewrite I3.
+  rewrite I3, Efd.
   destruct (spec_action K_TEST UNSOL (r_code rn)) eqn:E; try reflexivity.
   exfalso. apply Hnh. exact (spec_rt_hold false UNSOL _ E).
 Qed.
@@ -1031,3 +1056,197 @@ Theorem C10_uns_list_is_ok : spec_action K_TEST UNSOL RC_PRINT_CMD_LIST_OK = A_O
 Proof. repeat split. Qed.
 
 End C10b.
+
+(* ------------------------------------------------------------------ *)
+(* 5. the same on the scripted handler environment of Script.v          *)
+(*    (script kinds: 1 read handler, 3 test handler; one script per     *)
+(*    command, whichever machine calls)                                 *)
+(* ------------------------------------------------------------------ *)
+
+Lemma is_rt_key : forall (rd : bool) f ci q, is_rt rd f ci q ->
+  key_of q = ((if rd then 1 else 3), ci, 0).
+Proof.
+  intros rd f ci q H. destruct q; try contradiction; cbn [is_rt] in H;
+    destruct H as (Hrd & _ & Hci); subst; reflexivity.
+Qed.
+
+Lemma scripted_rt_returns : forall (rd : bool) f ci rs rn rest (h : shs),
+  script_of h ((if rd then 1 else 3), ci, 0) = rs ++ rn :: rest ->
+  h_returns_any shs s_call (is_rt rd f ci) h (rs ++ [rn]).
+Proof.
+  intros rd f ci rs rn rest h Hs.
+  apply (h_returns_any_weaken shs s_call (is_rt rd f ci)
+           (fun q0 => key_of q0 = ((if rd then 1 else 3), ci, 0))).
+  - intros q Hq. exact (is_rt_key rd f ci q Hq).
+  - apply (scripted_returns _ (rs ++ [rn]) rest). rewrite <- app_assoc. exact Hs.
+Qed.
+
+Section Scripted.
+Variable D : desc.
+Local Notation st := (Fsm.st sio smu shs).
+Local Notation hs := (Fsm.hs sio smu shs).
+Local Notation tr := (Fsm.tr sio smu shs).
+Local Notation call_h := (Fsm.call_h D sio smu shs s_lock s_unlock s_call).
+Local Notation rt_run := (rt_run D sio smu shs s_read s_write s_lock s_unlock s_call).
+
+Theorem C10_rt_sequence_scripted : forall (rd : bool) (f : fsm) rs rn rest (w : sworld) ci c,
+  in_rt_loop rd f (st w) -> g_cmd f (st w) = Some ci -> cmd_at D ci = Some c ->
+  (if rd then c_hread c = true /\ vars_access_possible c RO = false
+   else c_htest c = true /\ c_vars c = [] /\ c_descr c = None) ->
+  length (c_name c) + 1 < g_bsz f (st w) -> (forall x, In x (c_name c) -> x <> 0%N) ->
+  let kd := if rd then K_READ else K_TEST in
+  script_of (hs w) ((if rd then 1 else 3), ci, 0) = rs ++ rn :: rest ->
+  (forall r, In r rs -> terminal (spec_action kd f (r_code r)) = false) ->
+  terminal (spec_action kd f (r_code rn)) = true ->
+  (f = UNSOL -> r_code rn <> RC_HOLD) ->
+  let n := length rs in
+  let hdr := c_name c ++ [ch_EQ] in
+  let wn := fst (rt_run f n w) in
+  let qn := rtq rd f ci (st wn) in
+  let se := apply_edit f (r_edit rn) (st (fst (call_h wn qn))) in
+  (forall m, m <= n ->
+     in_rt_loop rd f (st (fst (rt_run f m w))) /\ xframe f (st w) (st (fst (rt_run f m w)))) /\
+  snd (call_h wn qn) = rn /\
+  st (fst (rt_run f (S n) w)) =
+    match spec_action kd f (r_code rn) with
+    | A_OK => end_with_ok f se
+    | A_ERROR => end_with_error f se
+    | A_EMIT_OK => end_with_ok f (flush_done f (start_flush_after f CS_AFTER_OK US_AFTER_OK se))
+    | A_HOLD => enable_hold_state se
+    | A_RELEASE_OK => end_with_ok f (fst (hold_exit se ST_OK))
+    | A_RELEASE_ERROR => end_with_error f (fst (hold_exit se ST_ERROR))
+    | A_LIST => if rd then se else match f with ATCMD => start_print_cmd_list D se | UNSOL => se end
+    | _ => se
+    end /\
+  xframe f (st w) (st (fst (rt_run f (S n) w))) /\
+  calls_of (tr (fst (rt_run f (S n) w))) =
+    rev (combine (rtq rd f ci (st w) ::
+                  repeat ((if rd then HRead else HTest) f ci (hdr ++ [0%N]) (length hdr)
+                            (g_bsz f (st w))) n)
+                 (map r_code (rs ++ [rn]))) ++ calls_of (tr w) /\
+  snd (rt_run f (S n) w) = units_of (g_bsz f (st w)) (text_of (g_buf f (st w))) hdr (rs ++ [rn]).
+Proof.
+  intros rd f rs rn rest w ci c HL Hc Hat Hcmd Hfit Hnz kd Hs Hnt Ht Hnh.
+  apply (C10_rt_sequence D sio smu shs s_read s_write s_lock s_unlock s_call rd f rs rn w ci c);
+    try assumption.
+  exact (scripted_rt_returns rd f ci rs rn rest (hs w) Hs).
+Qed.
+
+Theorem C10_test_sequence_scripted : forall rs rn rest (w : sworld) ci c,
+  k_state (k (st w)) = CS_TEST_LOOP -> k_cmd (k (st w)) = Some ci -> cmd_at D ci = Some c ->
+  c_htest c = true -> c_vars c = [] -> c_descr c = None ->
+  length (c_name c) + 1 < asz (st w) -> (forall x, In x (c_name c) -> x <> 0%N) ->
+  script_of (hs w) (3, ci, 0) = rs ++ rn :: rest ->
+  (forall r, In r rs -> terminal (spec_action K_TEST ATCMD (r_code r)) = false) ->
+  terminal (spec_action K_TEST ATCMD (r_code rn)) = true ->
+  let n := length rs in
+  let hdr := c_name c ++ [ch_EQ] in
+  let wn := fst (rt_run ATCMD n w) in
+  let qn := HTest ATCMD ci (firstn (S (k_position (k (st wn)))) (cbuf (st wn)))
+                  (k_position (k (st wn))) (asz (st wn)) in
+  let se := apply_edit ATCMD (r_edit rn) (st (fst (call_h wn qn))) in
+  (forall m, m <= n -> k_state (k (st (fst (rt_run ATCMD m w)))) = CS_TEST_LOOP) /\
+  snd (call_h wn qn) = rn /\
+  st (fst (rt_run ATCMD (S n) w)) =
+    match spec_action K_TEST ATCMD (r_code rn) with
+    | A_OK => ack_ok se
+    | A_ERROR => ack_error se
+    | A_EMIT_OK => ack_ok (setk_state CS_AFTER_OK (start_flush_c CS_AFTER_OK se))
+    | A_HOLD => enable_hold_state se
+    | A_RELEASE_OK => ack_ok (fst (hold_exit se ST_OK))
+    | A_RELEASE_ERROR => ack_error (fst (hold_exit se ST_ERROR))
+    | A_LIST => start_print_cmd_list D se
+    | _ => se
+    end /\
+  calls_of (tr (fst (rt_run ATCMD (S n) w))) =
+    rev (combine (HTest ATCMD ci (firstn (S (k_position (k (st w)))) (cbuf (st w)))
+                        (k_position (k (st w))) (asz (st w)) ::
+                  repeat (HTest ATCMD ci (hdr ++ [0%N]) (length hdr) (asz (st w))) n)
+                 (map r_code (rs ++ [rn]))) ++ calls_of (tr w) /\
+  snd (rt_run ATCMD (S n) w) = units_of (asz (st w)) (text_of (cbuf (st w))) hdr (rs ++ [rn]).
+Proof.
+  intros rs rn rest w ci c HL Hc Hat Hht Hv Hd Hfit Hnz Hs Hnt Ht.
+  apply (C10_test_sequence D sio smu shs s_read s_write s_lock s_unlock s_call rs rn w ci c);
+    try assumption.
+  exact (scripted_rt_returns false ATCMD ci rs rn rest (hs w) Hs).
+Qed.
+
+Theorem C10_read_sequence_uns_scripted : forall rs rn rest (w : sworld) ci c,
+  u_state (u (st w)) = US_READ_LOOP -> u_cmd (u (st w)) = Some ci -> cmd_at D ci = Some c ->
+  c_hread c = true -> vars_access_possible c RO = false ->
+  length (c_name c) + 1 < usz (st w) -> (forall x, In x (c_name c) -> x <> 0%N) ->
+  script_of (hs w) (1, ci, 0) = rs ++ rn :: rest ->
+  (forall r, In r rs -> terminal (spec_action K_READ UNSOL (r_code r)) = false) ->
+  terminal (spec_action K_READ UNSOL (r_code rn)) = true ->
+  r_code rn <> RC_HOLD ->
+  let n := length rs in
+  let hdr := c_name c ++ [ch_EQ] in
+  let wn := fst (rt_run UNSOL n w) in
+  let qn := HRead UNSOL ci (firstn (S (u_position (u (st wn)))) (ubuf (st wn)))
+                  (u_position (u (st wn))) (usz (st wn)) in
+  let se := apply_edit UNSOL (r_edit rn) (st (fst (call_h wn qn))) in
+  (forall m, m <= n -> u_state (u (st (fst (rt_run UNSOL m w)))) = US_READ_LOOP /\
+                       xframe UNSOL (st w) (st (fst (rt_run UNSOL m w)))) /\
+  snd (call_h wn qn) = rn /\
+  st (fst (rt_run UNSOL (S n) w)) =
+    match spec_action K_READ UNSOL (r_code rn) with
+    | A_OK | A_ERROR => unsolicited_reset_state se
+    | A_EMIT_OK => unsolicited_reset_state (setu_state US_AFTER_OK (start_flush_u US_AFTER_OK se))
+    | A_RELEASE_OK => unsolicited_reset_state (fst (hold_exit se ST_OK))
+    | A_RELEASE_ERROR => unsolicited_reset_state (fst (hold_exit se ST_ERROR))
+    | _ => se
+    end /\
+  xframe UNSOL (st w) (st (fst (rt_run UNSOL (S n) w))) /\
+  calls_of (tr (fst (rt_run UNSOL (S n) w))) =
+    rev (combine (HRead UNSOL ci (firstn (S (u_position (u (st w)))) (ubuf (st w)))
+                        (u_position (u (st w))) (usz (st w)) ::
+                  repeat (HRead UNSOL ci (hdr ++ [0%N]) (length hdr) (usz (st w))) n)
+                 (map r_code (rs ++ [rn]))) ++ calls_of (tr w) /\
+  snd (rt_run UNSOL (S n) w) = units_of (usz (st w)) (text_of (ubuf (st w))) hdr (rs ++ [rn]).
+Proof.
+  intros rs rn rest w ci c HL Hc Hat Hhr Hnv Hfit Hnz Hs Hnt Ht Hnh.
+  apply (C10_read_sequence_uns D sio smu shs s_read s_write s_lock s_unlock s_call rs rn w ci c);
+    try assumption.
+  exact (scripted_rt_returns true UNSOL ci rs rn rest (hs w) Hs).
+Qed.
+
+Theorem C10_test_sequence_uns_scripted : forall rs rn rest (w : sworld) ci c,
+  u_state (u (st w)) = US_TEST_LOOP -> u_cmd (u (st w)) = Some ci -> cmd_at D ci = Some c ->
+  c_htest c = true -> c_vars c = [] -> c_descr c = None ->
+  length (c_name c) + 1 < usz (st w) -> (forall x, In x (c_name c) -> x <> 0%N) ->
+  script_of (hs w) (3, ci, 0) = rs ++ rn :: rest ->
+  (forall r, In r rs -> terminal (spec_action K_TEST UNSOL (r_code r)) = false) ->
+  terminal (spec_action K_TEST UNSOL (r_code rn)) = true ->
+  r_code rn <> RC_HOLD ->
+  let n := length rs in
+  let hdr := c_name c ++ [ch_EQ] in
+  let wn := fst (rt_run UNSOL n w) in
+  let qn := HTest UNSOL ci (firstn (S (u_position (u (st wn)))) (ubuf (st wn)))
+                  (u_position (u (st wn))) (usz (st wn)) in
+  let se := apply_edit UNSOL (r_edit rn) (st (fst (call_h wn qn))) in
+  (forall m, m <= n -> u_state (u (st (fst (rt_run UNSOL m w)))) = US_TEST_LOOP /\
+                       xframe UNSOL (st w) (st (fst (rt_run UNSOL m w)))) /\
+  snd (call_h wn qn) = rn /\
+  st (fst (rt_run UNSOL (S n) w)) =
+    match spec_action K_TEST UNSOL (r_code rn) with
+    | A_OK | A_ERROR => unsolicited_reset_state se
+    | A_EMIT_OK => unsolicited_reset_state (setu_state US_AFTER_OK (start_flush_u US_AFTER_OK se))
+    | A_RELEASE_OK => unsolicited_reset_state (fst (hold_exit se ST_OK))
+    | A_RELEASE_ERROR => unsolicited_reset_state (fst (hold_exit se ST_ERROR))
+    | _ => se
+    end /\
+  xframe UNSOL (st w) (st (fst (rt_run UNSOL (S n) w))) /\
+  calls_of (tr (fst (rt_run UNSOL (S n) w))) =
+    rev (combine (HTest UNSOL ci (firstn (S (u_position (u (st w)))) (ubuf (st w)))
+                        (u_position (u (st w))) (usz (st w)) ::
+                  repeat (HTest UNSOL ci (hdr ++ [0%N]) (length hdr) (usz (st w))) n)
+                 (map r_code (rs ++ [rn]))) ++ calls_of (tr w) /\
+  snd (rt_run UNSOL (S n) w) = units_of (usz (st w)) (text_of (ubuf (st w))) hdr (rs ++ [rn]).
+Proof.
+  intros rs rn rest w ci c HL Hc Hat Hht Hv Hd Hfit Hnz Hs Hnt Ht Hnh.
+  apply (C10_test_sequence_uns D sio smu shs s_read s_write s_lock s_unlock s_call rs rn w ci c);
+    try assumption.
+  exact (scripted_rt_returns false UNSOL ci rs rn rest (hs w) Hs).
+Qed.
+
+End Scripted.
